@@ -41,7 +41,7 @@ func genSBloom(seed uint64, tier, variant string) any {
 	var heavy bool
 	p.N, p.FP, heavy = probConfig(r, false)
 	// accepted windows start at one second; odd numbers of milli- and microseconds included
-	p.WindowUs = pick[int64](r, 1_000_000, 1_000_000, 1_001_000, 1_000_999, 1_500_000, 2_000_000, 3_000_000, 3_333_333, 10_000_000, 10_000_000, 60_000_000, 3_600_000_000)
+	p.WindowUs = pick[int64](r, 1_000_000, 1_000_000, 1_001_000, 1_000_999, 1_500_000, 1_500_000, 1_999_000, 1_999_000, 2_000_000, 2_500_000, 2_999_999, 3_000_000, 3_333_333, 10_000_000, 10_500_000, 60_000_000, 90_700_000, 3_600_000_000)
 	if r.IntN(40) == 0 {
 		p.WindowUs = 999_999 // refused
 	}
